@@ -197,6 +197,23 @@ fn one(ctx: &mut Ctx, stream: &str, n: u64, rng: &mut Rng, large: bool) {
             return;
         }
     }
+    // Hermes function maps have no accessor of their own: besides the per-token scopes compared
+    // above, the serialised x_facebook_sources value must be the one the map was decoded from
+    if let SecMap::Hermes(h) = &model {
+        let want: serde_json::Value = serde_json::from_str(&h.fb_json_text()).expect("model JSON");
+        let got = serde_json::from_slice::<serde_json::Value>(&b1).ok().and_then(|v| v.get("x_facebook_sources").cloned());
+        ctx.bucket("hermes-function-map-json-compared");
+        if got.as_ref() != Some(&want) {
+            ctx.violation(
+                "roundtrip-differs:hermes-function-maps",
+                stream,
+                n,
+                format!("x_facebook_sources after write: {}, the map was decoded from {}", got.map_or("<absent>".to_string(), |g| g.to_string()), want),
+                mj(),
+            );
+            return;
+        }
+    }
     // byte idempotence on decoded maps
     let r = catch(|| -> Result<(Vec<u8>, Vec<u8>), String> {
         let s1 = ser(&m2)?;
